@@ -81,7 +81,7 @@ fn pixels_h<const N: usize, const P: usize>() {
     let t0 = sw.transactions;
     di.send_pixels(Src::<N, P> { px, n, k: 0 }).unwrap();
     assert!(sw.transactions - t0 <= budget(bytes, len, N), "[C06][C20] at most floor(bytes/usable)+1 transactions per burst");
-    assert!(sw.total as usize == 1 + na + bytes, "[C06] exactly the encoded pixel bytes: nothing lost, duplicated or padded");
+    assert!(sw.total as usize == 1 + na + bytes, "[C06][C01][C04] exactly the encoded pixel bytes: nothing lost, duplicated or padded");
     assert!(sw.dc_low_bytes == 1 && sw.dc_high, "[C06] DC high for every parameter and pixel byte");
     if sw.probe_hit {
         let j = sw.probe_idx as usize;
@@ -102,7 +102,7 @@ fn pixels_h<const N: usize, const P: usize>() {
                 }
                 t += 1;
             }
-            assert!(sw.probe_byte == px[q][r] && sw.probe_dc, "[C06] pixel byte in order, no stale buffer content");
+            assert!(sw.probe_byte == px[q][r] && sw.probe_dc, "[C06][C01][C04] pixel byte in order, no stale buffer content");
         }
     }
     kani::cover!(n == P && len == LMAX - 1 && sw.probe_hit && sw.probe_idx as usize == bytes, "cover: full stream, odd buffer");
@@ -127,7 +127,7 @@ fn repeated_h<const N: usize>(cmax: u32) {
     let t0 = sw.transactions;
     di.send_repeated_pixel(p, count).unwrap();
     assert!(sw.transactions - t0 <= budget(bytes, len, N), "[C06][C20] at most floor(bytes/usable)+1 transactions per burst");
-    assert!(sw.total as usize == 1 + bytes, "[C06] exactly count pixels");
+    assert!(sw.total as usize == 1 + bytes, "[C06][C05] exactly count pixels");
     assert!(sw.dc_low_bytes == 1 && sw.dc_high, "[C06] DC high for every pixel byte");
     if sw.probe_hit && sw.probe_idx >= 1 {
         let i = sw.probe_idx as usize - 1;
@@ -139,7 +139,7 @@ fn repeated_h<const N: usize>(cmax: u32) {
             }
             t += 1;
         }
-        assert!(sw.probe_byte == p[r] && sw.probe_dc, "[C06] repeated pixel byte, no stale buffer content");
+        assert!(sw.probe_byte == p[r] && sw.probe_dc, "[C06][C05] repeated pixel byte, no stale buffer content");
     }
     kani::cover!(count == cmax && len == LMAX - 1, "cover: max count, odd buffer");
     kani::cover!(count == 0, "cover: zero count");
@@ -191,13 +191,13 @@ macro_rules! h {
         }
     };
 }
-//@ props=C06,C20 inst="SpiInterface::send_pixels::<2> (Rgb565)" bounds="buffer length 2..=8 with symbolic prior content, 0..=6 pixels, symbolic byte index" timeout=900 mem=6
+//@ props=C06,C20,C01,C04 inst="SpiInterface::send_pixels::<2> (Rgb565)" bounds="buffer length 2..=8 with symbolic prior content, 0..=6 pixels, symbolic byte index" timeout=900 mem=6
 h!(c06_pixels_n2, 10, pixels_h::<2, 6>());
-//@ props=C06,C20 inst="SpiInterface::send_pixels::<3> (Rgb666)" bounds="buffer length 3..=8, 0..=6 pixels" timeout=900 mem=6
+//@ props=C06,C20,C01,C04 inst="SpiInterface::send_pixels::<3> (Rgb666)" bounds="buffer length 3..=8, 0..=6 pixels" timeout=900 mem=6
 h!(c06_pixels_n3, 10, pixels_h::<3, 6>());
-//@ props=C06,C20 inst="SpiInterface::send_repeated_pixel::<2>" bounds="buffer length 2..=8, count 0..=6" timeout=600 mem=4
+//@ props=C06,C20,C05 inst="SpiInterface::send_repeated_pixel::<2>" bounds="buffer length 2..=8, count 0..=6" timeout=600 mem=4
 h!(c06_repeated_n2, 10, repeated_h::<2>(6));
-//@ props=C06,C20 inst="SpiInterface::send_repeated_pixel::<3>" bounds="buffer length 3..=8, count 0..=6" timeout=600 mem=4
+//@ props=C06,C20,C05 inst="SpiInterface::send_repeated_pixel::<3>" bounds="buffer length 3..=8, count 0..=6" timeout=600 mem=4
 h!(c06_repeated_n3, 10, repeated_h::<3>(6));
 //@ props=C12 inst="SpiInterface, N=2: send_command / send_pixels / send_repeated_pixel" bounds="symbolic index of the failing low-level operation; args <= 4, <= 4 pixels, buffer 2..=8" timeout=900 mem=8
 h!(c12_spi_fault_n2, 10, fault_h::<2>());
